@@ -19,6 +19,16 @@ func init() {
 	// maven: conventional shapes N(.N){0,3} [sep group]
 	extraSpecGens["maven"] = func(r *RNG) string {
 		s := nums(r, r.Range(1, 4))
+		if r.Chance(12) {
+			// numbers of any length: on both sides of 2^63 and 2^64, with and without leading zeros
+			long := r.Pick([]string{"9223372036854775807", "9223372036854775808", "18446744073709551615", "18446744073709551616", "010000000000000000000",
+				"99999999999999999999", "100000000000000000000", "0018446744073709551616", "1000000000000000000", "123456789012345678901234567890"})
+			if i := strings.LastIndexByte(s, '.'); i >= 0 && r.Chance(70) {
+				s = s[:i+1] + long
+			} else {
+				s = long
+			}
+		}
 		if r.Chance(25) {
 			return s
 		}
